@@ -9,7 +9,8 @@ use std::io::Write;
 use std::net::{TcpListener, TcpStream};
 use std::path::Path;
 use std::time::{Duration, Instant};
-use vx_kit::{json, Check, Level, Local, Value};
+use vx_kit::{json, Check, Level, Value};
+use vx_tools::Attempt;
 use vx_ref::ds::{self, RElem, RVal, Ts};
 use vx_tools::dimse;
 use vx_tools::dsx;
@@ -23,7 +24,7 @@ const ELE: &str = "1.2.840.10008.1.2.1";
 const RLE: &str = "1.2.840.10008.1.2.5";
 const ENCAP: &str = "1.2.840.10008.1.2.1.98";
 const MPEG2: &str = "1.2.840.10008.1.2.4.100";
-const IO_LIMIT: Duration = Duration::from_secs(8);
+const IO_LIMIT: Duration = Duration::from_secs(20);
 /// maximum PDU length announced by the acceptor: small files go out in one PDU, big ones through
 /// the tool's chunking P-DATA writer
 const ACCEPTOR_MAX_PDU: u32 = 1200;
@@ -219,6 +220,7 @@ fn build_cases(check: &Check) -> Vec<Case> {
                 for c2 in [CT, MR] {
                     for t2 in &tss {
                         sets.push(vec![Kind { class: c1, ts: t1, big: false }, Kind { class: c2, ts: t2, big: true }]);
+                        sets.push(vec![Kind { class: c1, ts: t1, big: true }, Kind { class: c2, ts: t2, big: false }]);
                     }
                 }
             }
@@ -273,6 +275,8 @@ struct Session {
     accepted: BTreeMap<u8, (String, String)>,
     stores: Vec<Received>,
     end: String,
+    /// the acceptor gave up waiting for the next PDU (wall-clock limit)
+    timed_out: bool,
     protocol_errors: Vec<String>,
 }
 
@@ -406,6 +410,7 @@ fn serve(mut s: TcpStream, accept: &dyn Fn(&str, &str) -> bool, verbose: bool) -
                 return ses;
             }
             Err(e) => {
+                ses.timed_out = matches!(e.kind(), std::io::ErrorKind::WouldBlock | std::io::ErrorKind::TimedOut);
                 ses.end = format!("error: {e}");
                 return ses;
             }
@@ -483,9 +488,8 @@ fn compare_data(f: &FileSpec, wire_ts: &str, data: &[u8]) -> Result<(), (&'stati
     Ok(())
 }
 
-fn run_case(l: &mut Local, c: &Case, dir: &Path, exe: &Path) {
-    let verbose = l.check.verbose;
-    l.eval();
+fn run_case(l: &mut Attempt, check: &Check, c: &Case, dir: &Path, exe: &Path) {
+    let verbose = check.verbose;
     let _ = std::fs::remove_dir_all(dir);
     std::fs::create_dir_all(dir).expect("case dir");
     let files: Vec<FileSpec> = c.kinds.iter().enumerate().map(|(n, k)| make_file(k, n)).collect();
@@ -560,25 +564,30 @@ fn run_case(l: &mut Local, c: &Case, dir: &Path, exe: &Path) {
 
     let Some(ses) = session else {
         l.outcome("tool-did-not-connect");
-        l.fail(&c.id, class("tool-did-not-connect", None), base_detail(json!({ "status": status.describe(), "output": read_log(&log) })));
+        l.fail_transient(class("tool-did-not-connect", None), base_detail(json!({ "status": status.describe(), "output": read_log(&log) })));
         return;
     };
+    if ses.timed_out {
+        l.outcome("FAIL-no-pdu-within-limit");
+        l.fail_transient(class("tool-silent-beyond-limit", None), base_detail(json!({ "limit_s": IO_LIMIT.as_secs(), "stores_received": ses.stores.len(), "output": read_log(&log) })));
+        return;
+    }
     if status == proc::Ran::Timeout {
         l.outcome("FAIL-timeout");
-        l.fail(&c.id, class("tool-timeout", None), base_detail(json!({ "session_end": ses.end, "output": read_log(&log) })));
+        l.fail_transient(class("tool-timeout", None), base_detail(json!({ "session_end": ses.end, "output": read_log(&log) })));
         return;
     }
     // the harness's model of the proposal must be what the tool proposed, else "every policy" is not what was run
     let mut proposed: Vec<(String, String)> = ses.proposed.iter().flat_map(|p| p.ts.iter().map(move |t| (p.abs.clone(), t.clone()))).collect();
     proposed.sort();
     if proposed != c.expected || ses.proposed.iter().any(|p| p.ts.len() != 1) {
-        l.check.machinery_error(&format!("case {}: the tool proposed {:?}, the harness expected {:?}", c.id, proposed, c.expected));
+        check.machinery_error(&format!("case {}: the tool proposed {:?}, the harness expected {:?}", c.id, proposed, c.expected));
         return;
     }
-    l.nontrivial(&c.id);
+    l.nontrivial = true;
     if !ses.protocol_errors.is_empty() {
         l.outcome("FAIL-protocol");
-        l.fail(&c.id, class("protocol", None), base_detail(json!({ "errors": ses.protocol_errors, "output": read_log(&log) })));
+        l.fail(class("protocol", None), base_detail(json!({ "errors": ses.protocol_errors, "output": read_log(&log) })));
         return;
     }
 
@@ -588,7 +597,7 @@ fn run_case(l: &mut Local, c: &Case, dir: &Path, exe: &Path) {
         let inst = r.cmd.sop_instance.clone().unwrap_or_default();
         let Some(fi) = files.iter().position(|f| f.instance == inst) else {
             l.outcome("FAIL-unknown-instance");
-            l.fail(&c.id, class("unknown-instance", None), base_detail(json!({ "affected_sop_instance_uid": inst })));
+            l.fail(class("unknown-instance", None), base_detail(json!({ "affected_sop_instance_uid": inst })));
             return;
         };
         let f = &files[fi];
@@ -615,7 +624,7 @@ fn run_case(l: &mut Local, c: &Case, dir: &Path, exe: &Path) {
         };
         if let Some((kind, extra)) = verdict {
             l.outcome(&format!("FAIL-{kind}"));
-            l.fail(&c.id, class(kind, Some(f)), info(extra));
+            l.fail(class(kind, Some(f)), info(extra));
             return;
         }
     }
@@ -626,12 +635,12 @@ fn run_case(l: &mut Local, c: &Case, dir: &Path, exe: &Path) {
         });
         if admissible && sent_count[fi] == 0 {
             l.outcome("FAIL-unsent-although-admissible");
-            l.fail(&c.id, class("unsent-although-admissible", Some(f)), base_detail(json!({ "file": f.kind.name(), "session_end": ses.end, "status": status.describe(), "output": read_log(&log) })));
+            l.fail(class("unsent-although-admissible", Some(f)), base_detail(json!({ "file": f.kind.name(), "session_end": ses.end, "status": status.describe(), "output": read_log(&log) })));
             return;
         }
         if !admissible && sent_count[fi] > 0 {
             // sent correctly (checked above) although the harness model saw no admissible context
-            l.check.machinery_error(&format!("case {}: {} was sent correctly but the admissibility model says it could not be", c.id, f.kind.name()));
+            check.machinery_error(&format!("case {}: {} was sent correctly but the admissibility model says it could not be", c.id, f.kind.name()));
             return;
         }
     }
@@ -653,7 +662,7 @@ fn main() {
     let check = Check::from_args("C33", Level::Exploration);
     check.set_rule(
         "file sets: every single file over SOP class {CT, MR} x transfer syntax {Implicit LE, Explicit LE, RLE Lossless (decodable), encapsulated uncompressed; thorough: + an opaque MPEG2 stub} (x {small 2x2, big 40x32} thorough), \
-         pairs (small file, big file): quick 5 chosen pairs, thorough every ordered pair of (class, syntax), thorough + 3 triples; \
+         pairs (small file, big file): quick 5 chosen pairs, thorough every ordered pair of (class, syntax) in both size orders, thorough + 3 triples; \
          x {default, --never-transcode} x {synchronous, --concurrency 1}; acceptor policies = EVERY subset of the presentation contexts the tool proposes (each proposes one syntax), \
          which includes 'only Implicit LE of the other SOP class'. One tool process per case; distinct by case id; non-trivial = the association request was received and matched the expected proposal",
     );
@@ -671,7 +680,8 @@ fn main() {
             return;
         }
         let dir = scratch.join(format!("c{i}"));
-        run_case(l, c, &dir, &exe);
+        let chk = l.check;
+        vx_tools::run_with_retries(l, &c.id, 3, |a| run_case(a, chk, c, &dir, &exe));
         let _ = std::fs::remove_dir_all(&dir);
     });
     let _ = std::fs::remove_dir_all(&scratch);
